@@ -1173,12 +1173,15 @@ def _load_categorical_component(rec, context):
 
 @saver(DerivedComponent)
 def _save_derived_component(component, context):
-    return dict(link=context.id(component.link))
+    return dict(link=context.id(component.link),
+                units=component.units)
 
 
 @loader(DerivedComponent)
 def _load_derived_component(rec, context):
-    return DerivedComponent(None, link=context.object(rec['link']))
+    # (files written before the units were stored do not have them)
+    return DerivedComponent(None, link=context.object(rec['link']),
+                            units=rec.get('units'))
 
 
 @saver(ComponentLink)
